@@ -331,6 +331,44 @@ def reversible_attribute(ctx, tmpdir):
         ctx.count("reversible_attribute_readings")
 
 
+def duplicate_reactions(ctx, tmpdir):
+    """two reactions of a document that differ in nothing but their ids (two enzymes lumped under one law, a reaction entered
+    twice by a generator): the net rate is the sum over *reactions*, so both count."""
+    from bioscrape.types import Model
+    from bioscrape.simulator import ModelCSimInterface
+    doc = libsbml.SBMLDocument(3, 2)
+    m = doc.createModel(); m.setId("duplicate_reactions")
+    c = m.createCompartment(); c.setId("cell"); c.setSize(1.0); c.setConstant(True); c.setSpatialDimensions(3)
+    for sname in ("A", "B"):
+        sp = m.createSpecies(); sp.setId(sname); sp.setCompartment("cell"); sp.setConstant(False); sp.setBoundaryCondition(False)
+        sp.setHasOnlySubstanceUnits(False); sp.setInitialAmount(1.0)
+    par = m.createParameter(); par.setId("k"); par.setConstant(True); par.setValue(0.5)
+    for rid, law in (("r1", "k * A"), ("r2", "k * A"), ("r3", "k * A"), ("r4", "k * B")):
+        r = m.createReaction(); r.setId(rid); r.setReversible(False)
+        src, dst = ("A", "B") if rid != "r4" else ("B", "A")
+        sr = r.createReactant(); sr.setSpecies(src); sr.setStoichiometry(1.0); sr.setConstant(True)
+        sr = r.createProduct(); sr.setSpecies(dst); sr.setStoichiometry(1.0); sr.setConstant(True)
+        r.createKineticLaw().setMath(libsbml.parseL3Formula(law))
+    path = os.path.join(tmpdir, "duplicates.xml")
+    libsbml.writeSBMLToFile(doc, path)
+    case = {"scenario": "three identical reactions A -> B (k*A) and one B -> A"}
+    ctx.begin_case(case)
+    M = Model(sbml_filename=path, sbml_warnings=False)
+    sl = M.get_species_list()
+    I = ModelCSimInterface(M)
+    I.py_prep_deterministic_simulation()
+    x = {"A": 4.0, "B": 1.0}
+    dx = np.zeros(len(sl))
+    I.py_calculate_deterministic_derivative(np.array([x[s_] for s_ in sl]), dx, 0.0)
+    ctx.evaluated()
+    want = {"A": -3 * 0.5 * 4.0 + 0.5 * 1.0, "B": 3 * 0.5 * 4.0 - 0.5 * 1.0}
+    got = {s_: float(dx[i]) for i, s_ in enumerate(sl)}
+    if any(abs(got[s_] - want[s_]) > 1e-12 for s_ in want):
+        ctx.violation("rate-equation/duplicate-reactions", "the imported model's rate equations %s are not the sum over the document's four reactions %s" % (got, want), dict(case, got=got, want=want))
+        return
+    ctx.count("duplicate_reactions")
+
+
 def power_text(ctx, tmpdir):
     """every shape of a tree of powers with up to three `^` (identifiers A, p, B, q from left to right) as the kinetic law of a
     document: libsbml's text for it against the Lean printer, the imported rate against the value of the tree the Lean reader
@@ -465,6 +503,7 @@ def run(ctx):
         left_nested_power(ctx, d)
         power_text(ctx, d)
         reversible_attribute(ctx, d)
+        duplicate_reactions(ctx, d)
         both_attributes(ctx, d)
 
 
